@@ -203,3 +203,38 @@ def task_c12_dispatch(which):
         run.oblige("C12|%s/hands-the-message-to-the-router-once-with-itself-as-sender" % label,
                    z3.BoolVal(len(routed) == 1 and routed[0][0] is m and routed[0][1] is h))
     return task
+
+
+def task_client_receive():
+    """client TCP connection: one receive-loop iteration for any bytes read raises nothing given the
+    consumer (BaseClient.process_message, C15) raises nothing; every delivered message goes to it."""
+    def task(I, run):
+        mod = I.import_module("indi.transport.client.tcp")
+        CH = mod.ns["ConnectionHandler"]
+        I.contracts[BUFFER_PROCESS.key] = BUFFER_PROCESS
+        I.contracts[RECV_CLI.key] = RECV_CLI
+        I.await_hook = default_await
+        got = []
+
+        class Consumer:
+            callable = True
+
+            def call_self(self, I_, sym, args, kwargs):
+                got.append(args[0])
+                return None
+        reader, writer = Sym(I.fresh("reader"), ReaderIface()), Sym(I.fresh("writer"), WriterIface())
+        cb = Sym(I.fresh("consumer"), Consumer())
+        for_blobs = bool(run.choice(2, "for_blobs"))
+        h = I.call(CH, [reader, writer, cb], {"for_blobs": for_blobs})
+        th = h.fields["buffer"].fields["max_buffer_size_before_frontal_cleanup"]
+        run.oblige("C15,C08|client.tcp/blob-connection-disables-the-junk-threshold-control-connection-keeps-it",
+                   z3.BoolVal((th is None) == for_blobs))
+        f = I.world.functions[(TCP_C, "ConnectionHandler.wait_for_messages")]
+        I.root_func = f
+        try:
+            I.do_await(I.call(IBound(f, h), [], {}))
+        except IRaise as e:
+            run.fail("C15|client.tcp.wait_for_messages/receive-loop-raises-nothing-for-any-bytes-read", "raised %s" % e)
+            return
+        run.cover("cover[client.tcp]/eof")
+    return task
